@@ -144,7 +144,9 @@ struct AutoWorld : World {
         auto serve_learn = [&](int opi, bool nrpn, int id, float v) {   // an unbound controller arrived
             (void)opi;
             if (fifo.empty()) return -1;
-            int s = fifo.front(); fifo.pop_front(); if (nrpn) ms[s].nrpn = id; else ms[s].cc = id;
+            int s = fifo.front(); fifo.pop_front();
+            if ((nrpn ? ms[s].nrpn : ms[s].cc) != -1) { snprintf(b, sizeof b, "op %d: slot %d is bound to %s %d and was never cleared, yet a learn request replaces that binding by %d: the old controller stops driving its slot", opi, s, nrpn ? "nrpn" : "cc", nrpn ? ms[s].nrpn : ms[s].cc, id); fail("REBIND", b); }
+            if (nrpn) ms[s].nrpn = id; else ms[s].cc = id;
             stat_add(P_LEARN_SERVED); if (nrpn) stat_add(P_LEARN_NRPN); if (cleared_since_request[s]) stat_add(P_LEARN_SERVED_AFTER_CLEAR); nontrivial = true; (void)v;
             return s;
         };
